@@ -174,3 +174,18 @@ func (tx *txDestroyKeyData) Rollback(ring *KeyRing) error {
 	tx.dataBackup = nil
 	return nil
 }
+
+// txExpectNoKeys guards a transaction log which is valid only for a key ring without keys.
+// It does not change anything by itself.
+type txExpectNoKeys struct{}
+
+func (tx *txExpectNoKeys) Apply(ring *KeyRing) error {
+	if len(ring.data.Keys) != 0 {
+		return ErrKeyRingExists
+	}
+	return nil
+}
+
+func (tx *txExpectNoKeys) Rollback(ring *KeyRing) error {
+	return nil
+}
